@@ -167,7 +167,10 @@ fn call_decode_cases(sink: &mut Sink<'_>, which: usize) {
     let (tname, base) = &bases[which];
     for fl in 0..27usize {
         let vals = [fl % 3, fl / 3 % 3, fl / 9];
-        for unknown in [false, true] {
+        // no unknown member, a short one, one with a name of 70 characters (names are copied when they
+        // are spelled with an escape: no fixed-size assumption about them may show)
+        for unknown_name in [None, Some("x-unknown"), Some("x-unknown-member-with-a-rather-long-name-that-goes-on-and-on-0123456789")] {
+            let unknown = unknown_name.is_some();
             let mut members = base.clone();
             for (k, name) in ["oneway", "more", "upgrade"].iter().enumerate() {
                 match vals[k] {
@@ -176,8 +179,8 @@ fn call_decode_cases(sink: &mut Sink<'_>, which: usize) {
                     _ => {}
                 }
             }
-            if unknown {
-                members.push(("x-unknown".into(), json!({"deep": [true]})));
+            if let Some(n) = unknown_name {
+                members.push((n.into(), json!({"deep": [true]})));
             }
             let want = (vals[0] == 1, vals[1] == 1, vals[2] == 1);
             // every member order; and, in source order and reversed, every member's name spelled with
@@ -208,8 +211,8 @@ fn call_decode_cases(sink: &mut Sink<'_>, which: usize) {
                         Ok(c) => {
                             let mut rest = BTreeMap::new();
                             rest.insert("parameters".to_string(), json!({"k": [1, 2]}));
-                            if unknown {
-                                rest.insert("x-unknown".to_string(), json!({"deep": [true]}));
+                            if let Some(n) = unknown_name {
+                                rest.insert(n.to_string(), json!({"deep": [true]}));
                             }
                             if c.method().method != "a.C" || !flags((c.oneway(), c.more(), c.upgrade())) {
                                 Err(("envelope:call-decoded-wrongly", format!("{c:?}")))
@@ -238,7 +241,7 @@ fn call_decode_cases(sink: &mut Sink<'_>, which: usize) {
                 };
                 match r {
                     Ok(k) => {
-                        sink.state(H64::new().u(which as u64).u(fl as u64).u(unknown as u64).get());
+                        sink.state(H64::new().u(which as u64).u(fl as u64).u(unknown_name.map_or(0, |n| n.len()) as u64).get());
                         sink.pass(H64::new().u(k).s(&text).get())
                     }
                     Err((class, d)) => sink.fail(class, format!("{d}; frame `{text}` as Call<{tname}>"), case),
